@@ -547,11 +547,19 @@ func c02RunTwin(w *fw.W, idx int) {
 	prof.LoopBudget = 9
 	g := gen.New(r, prof)
 	src := sx.Render(g.Program(), nil)
-	on := c02Exec(src, rt.Opts{MaxSteps: 2_000_000})
-	off := c02Exec(src, rt.Opts{MaxSteps: 2_000_000, Debugger: true})
-	prf := c02Exec(src, rt.Opts{MaxSteps: 2_000_000, Profiler: true})
+	const maxPhys, maxSteps = 4000, 2_000_000
+	on := c02Exec(src, rt.Opts{MaxSteps: maxSteps, MaxPhys: maxPhys})
+	off := c02Exec(src, rt.Opts{MaxSteps: maxSteps, MaxPhys: maxPhys, Debugger: true})
+	prf := c02Exec(src, rt.Opts{MaxSteps: maxSteps, MaxPhys: maxPhys, Profiler: true})
 	w.Eval(3)
-	if c02LimitErr(off.t) || c02LimitErr(on.t) || c02LimitErr(prf.t) {
+	// A run that hit a resource limit is not comparable: elimination changes how much
+	// stack a runaway program uses, that is its purpose.  The limit error may have been
+	// HANDLED by the program, so the final outcome does not show it: the stack height
+	// seen by the push hook and the step counter do.
+	hitLimit := func(x c02Tr) bool {
+		return c02LimitErr(x.t) || x.mon.maxHeight >= maxPhys-1 || x.t.Steps >= maxSteps-1
+	}
+	if hitLimit(off) || hitLimit(on) || hitLimit(prf) {
 		w.Count("twin_skipped_limit", 1)
 		return
 	}
